@@ -1588,6 +1588,9 @@ func (s *manifestStore) generateDescriptor(resp *http.Response, ref registry.Ref
 			// GET without server `Docker-Content-Digest` header forces the
 			// expensive calculation
 			var calculatedDigest digest.Digest
+			if err := limitSize(ocispec.Descriptor{Size: resp.ContentLength}, s.repo.MaxMetadataBytes); err != nil {
+				return ocispec.Descriptor{}, fmt.Errorf("%s %q: %w", resp.Request.Method, resp.Request.URL, err)
+			}
 			if calculatedDigest, err = calculateDigestFromResponse(resp, s.repo.MaxMetadataBytes); err != nil {
 				return ocispec.Descriptor{}, fmt.Errorf("failed to calculate digest on response body; %w", err)
 			}
